@@ -2299,8 +2299,9 @@ func tokenTypes() []simplexer.TokenType{
 		t(CHAR_STR, `\?(\\[snt\\]|[^\r\n\\])`),
 		t(BACKQUOTE_STR, "`(\\\\`|[^`])*`"),
 		// NOTE: `#` is a character of the str unless `{` follows it
-		t(HEAD_STR_PIECE, `"(\\\"|[^\"\n\r#]|#+(\\\"|[^\"\n\r#\{]))*#+\{`),
-		t(DOUBLEQUOTE_STR, `"(\\\"|[^\"\n\r])*"`),
+		t(HEAD_STR_PIECE, `"(\\.|[^\"\\\n\r#]|#+(\\.|[^\"\\\n\r#\{]))*#+\{`),
+		// NOTE: `\` escapes the next character (`"a\\"` ends after the escaped backslash)
+		t(DOUBLEQUOTE_STR, `"(\\.|[^\"\\\n\r])*"`),
 		// NOTE: lexer deals with multiline chain
 		// (if parser does, shift/reduce conflict occurs)
 		t(MULTILINE_ADD_CHAIN, fmt.Sprintf(`%s[&~=]`, keepChainRet)),
@@ -2373,8 +2374,8 @@ func embeddedStrTokenTypes() []simplexer.TokenType {
 	// (otherwise, func call like `{|x| x}("a")` is wrongly lexed to
 	// TAIL_STR_PIECE)
 	return []simplexer.TokenType{
-		t(MID_STR_PIECE, `\}(\\\"|[^\"\n\r#]|#+(\\\"|[^\"\n\r#\{]))*#+\{`),
-		t(TAIL_STR_PIECE, `\}(\\\"|[^\"\n\r#]|#+(\\\"|[^\"\n\r#\{]))*#*"`),
+		t(MID_STR_PIECE, `\}(\\.|[^\"\\\n\r#]|#+(\\.|[^\"\\\n\r#\{]))*#+\{`),
+		t(TAIL_STR_PIECE, `\}(\\.|[^\"\\\n\r#]|#+(\\.|[^\"\\\n\r#\{]))*#*"`),
 	}
 }
 
